@@ -36,6 +36,7 @@ func (n *Nodes) Len() int {
 // Next returns whether the next call of Node will return a valid node.
 func (n *Nodes) Next() bool {
 	if n.pos >= n.nodes {
+		n.curr = nil
 		return false
 	}
 	ok := n.iter.next()
@@ -144,6 +145,7 @@ func (n *NodesByEdge) Len() int {
 // Next returns whether the next call of Node will return a valid node.
 func (n *NodesByEdge) Next() bool {
 	if n.pos >= n.edges {
+		n.curr = nil
 		return false
 	}
 	ok := n.iter.next()
